@@ -89,9 +89,20 @@ def flatten_class(world, cid):
     return entry
 
 
+def _inserted(op):
+    pspec = copy.deepcopy(op["prop"])
+    if op.get("via") in ("update", "ior", "setdefault"):
+        pspec["_unbound"] = True
+    return pspec
+
+
 def _rename(props, attr, new):
     """The same Property object moved to another key: it keeps the source name
     it was bound to (explicit, or its first attribute name)."""
+    if props[attr].get("_unbound"):
+        # inserted through a dict method that bypasses binding: its source name
+        # is only fixed at its first binding, which the model does not track
+        raise ValueError("rename of a property that may never have been bound")
     pspec = props.pop(attr)
     pspec = dict(pspec)
     pspec["source"] = pspec.get("source") or attr
@@ -109,7 +120,7 @@ def apply_model(world, op):
             else:
                 kw[op["kw"]] = copy.deepcopy(op["val"]["set"])
         elif op["op"] == "set_prop":
-            node["props"][op["attr"]] = copy.deepcopy(op["prop"])
+            node["props"][op["attr"]] = _inserted(op)
         elif op["op"] == "del_prop":
             del node["props"][op["attr"]]
         elif op["op"] == "rename_prop":
@@ -124,7 +135,7 @@ def apply_model(world, op):
         else:
             kw[op["kw"]] = copy.deepcopy(op["val"]["set"])
     elif op["op"] == "set_prop":
-        kw["properties"][op["attr"]] = copy.deepcopy(op["prop"])
+        kw["properties"][op["attr"]] = _inserted(op)
     elif op["op"] == "del_prop":
         del kw["properties"][op["attr"]]
     elif op["op"] == "rename_prop":
@@ -310,11 +321,12 @@ def gen_reconfig_for(rng, wg, model, path, kind, node, want_props, allow_parent=
         sub = rng.random()
         if props and sub < 0.08:
             fresh_names = [n for n in gen.PROP_NAMES if n not in props]
-            if fresh_names:
+            bound = [a for a, p in props.items() if not p.get("_unbound")]
+            if fresh_names and bound:
                 return {
                     "op": "rename_prop",
                     "path": path,
-                    "attr": rng.choice(list(props)),
+                    "attr": rng.choice(bound),
                     "new": rng.choice(fresh_names),
                 }
         if props and sub < 0.3:
